@@ -331,6 +331,77 @@ fn name_paths(s: &Schema) -> BTreeSet<Vec<String>> {
     out
 }
 
+/// name path -> node, `None` when two siblings share a name (paths would be ambiguous)
+fn path_map(s: &Schema) -> Option<std::collections::BTreeMap<Vec<String>, Node>> {
+    let ns = nodes_of(s);
+    let mut out = std::collections::BTreeMap::new();
+    for i in 0..ns.len() {
+        let mut p = vec![];
+        let mut c = Some(i);
+        while let Some(k) = c {
+            p.push(ns[k].name.clone());
+            c = ns[k].parent;
+        }
+        p.reverse();
+        if out.insert(p, ns[i].clone()).is_some() {
+            return None;
+        }
+    }
+    Some(out)
+}
+
+fn field_to_tokens(f: &Field, o: &mut Vec<String>) {
+    o.push(format!("{} {} {} {} {} {}", enc_str(&f.name), f.id, kind_of(f), f.nullable as u8, meta_of(f), f.children.len()));
+    for c in &f.children {
+        field_to_tokens(c, o);
+    }
+}
+
+/// a variant of the schema defined by `line`: same names, ids re-assigned by `f(id)`; optionally some sub-trees dropped,
+/// the top level reversed, one leaf type changed
+fn gen_variant(r: &mut Rng, line: &str, reg: &str) -> Option<String> {
+    let toks: Vec<&str> = line.split(' ').collect();
+    let mut fs = parse_fields(&toks[2..])?;
+    let mode = r.below(4);
+    let maxid = Schema { fields: fs.clone(), metadata: HashMap::new() }.field_ids().into_iter().max().unwrap_or(0).max(0);
+    fn remap(fs: &mut Vec<Field>, mode: u64, maxid: i32, r: &mut Rng, depth: usize) {
+        if depth > 0 && fs.len() > 1 && r.chance(1, 4) {
+            let k = r.usize(fs.len());
+            fs.remove(k);
+        }
+        for f in fs.iter_mut() {
+            if f.id >= 0 {
+                f.id = match mode {
+                    0 => f.id + 7,                 // other side larger
+                    1 => maxid - f.id,             // reversed: some larger, some smaller
+                    2 => f.id * 2 + 1,
+                    _ => f.id / 2 + (f.id % 2) * (maxid + 1), // mostly smaller, still injective
+                };
+            }
+            if f.children.is_empty() && r.chance(1, 12) {
+                f.logical_type = LogicalType::from(if f.logical_type.to_string() == "int32" { "int64" } else { "int32" });
+            }
+            if r.chance(1, 6) {
+                f.nullable = !f.nullable;
+            }
+            remap(&mut f.children, mode, maxid, r, depth + 1);
+        }
+    }
+    remap(&mut fs, mode, maxid, r, 0);
+    if fs.len() > 1 && r.chance(1, 3) {
+        let k = r.usize(fs.len());
+        fs.remove(k);
+    }
+    if r.chance(1, 3) {
+        fs.reverse();
+    }
+    let mut o = vec![];
+    for f in &fs {
+        field_to_tokens(f, &mut o);
+    }
+    Some(format!("def {reg} {} {}", fs.len(), o.join(" ")))
+}
+
 struct C43 {
     state: HashMap<String, Val>,
 }
@@ -548,6 +619,56 @@ impl C43 {
                                 fail("intersection_attrs", "intersection result is not an attribute preserving sub-schema".into());
                             }
                             tags.push("isect:oracle".into());
+                        }
+                        // general oracle (any two operands with unambiguous name paths): every field of the result is the
+                        // same-named field path of the LEFT operand with its id and attributes (the right operand only lends
+                        // an id where the left one has none), ids stay pairwise distinct, and for type-compatible operands the
+                        // result's name paths are exactly those present in both
+                        if let (Some(pa), Some(pb), Some(pr)) = (path_map(&a), path_map(&b), path_map(&r)) {
+                            for (p, n) in &pr {
+                                match pa.get(p) {
+                                    None => fail("intersection_paths", format!("result field {:?} is not a field path of the left operand", p)),
+                                    Some(x) => {
+                                        if x.id >= 0 {
+                                            if n.id != x.id {
+                                                fail("intersection_left_ids", format!("field {:?} has id {} in the left operand but {} in the intersection", p, x.id, n.id));
+                                            }
+                                            if n.kind != x.kind || n.nullable != x.nullable || n.meta != x.meta {
+                                                fail("intersection_left_attrs", format!("field {:?} does not carry the left operand's attributes", p));
+                                            }
+                                        } else if let Some(y) = pb.get(p) {
+                                            if n.id != y.id {
+                                                fail("intersection_left_ids", format!("field {:?} without id on the left should take the right id {} but has {}", p, y.id, n.id));
+                                            }
+                                        }
+                                    }
+                                }
+                            }
+                            let a_ids: Vec<i32> = a.field_ids();
+                            let a_ok = a_ids.iter().all(|i| *i >= 0) && a_ids.iter().collect::<HashSet<_>>().len() == a_ids.len();
+                            if a_ok {
+                                let rid = r.field_ids();
+                                if rid.iter().collect::<HashSet<_>>().len() != rid.len() {
+                                    fail("intersection_left_ids", format!("intersection has duplicate ids {:?} although the left operand's ids {:?} are distinct", rid, a_ids));
+                                }
+                            }
+                            let leaf_ok = |m: &std::collections::BTreeMap<Vec<String>, Node>| m.values().all(|n| n.kind == "s" || n.kind == "l" || n.nchildren == 0);
+                            let compat = pa.iter().all(|(p, x)| pb.get(p).map(|y| y.kind == x.kind).unwrap_or(true));
+                            if compat && leaf_ok(&pa) && leaf_ok(&pb) {
+                                let exp: BTreeSet<&Vec<String>> = pa.keys().filter(|p| pb.contains_key(*p)).collect();
+                                let got: BTreeSet<&Vec<String>> = pr.keys().collect();
+                                if exp != got {
+                                    fail("intersection_paths", format!("intersection name paths {:?}, expected exactly those present in both {:?}", got, exp));
+                                }
+                                tags.push("isect:paths_oracle".into());
+                            }
+                            if a_ok && pb.iter().any(|(p, y)| pa.get(p).map(|x| y.id > x.id).unwrap_or(false)) {
+                                tags.push("isect:other_id_larger".into());
+                            }
+                            if a_ok && pb.iter().any(|(p, y)| pa.get(p).map(|x| y.id >= 0 && y.id < x.id).unwrap_or(false)) {
+                                tags.push("isect:other_id_smaller".into());
+                            }
+                            tags.push("isect:left_oracle".into());
                         }
                         let out = dump_schema(&r);
                         self.state.insert(toks[1].into(), Val::S(r));
@@ -1062,7 +1183,7 @@ impl Prop for C43 {
     }
     fn rule(&self) -> String {
         "cases 0..299: exhaustive enumeration of all strings of length <= 4 over {a . ` space é \\} through parse / escape / \
-         format (6 per op line group); then random register programs: 1-2 base schemas (1-4 top level fields, depth <= 3, structs, \
+         format (6 per op line group); then random register programs: 1-2 base schemas (in a third of the cases the second one is a variant of the first: same names, every id re-assigned to a larger / smaller / permuted value, some sub-trees dropped, a leaf retyped, top level reversed, followed by intersections in both directions) (1-4 top level fields, depth <= 3, structs, \
          lists, four leaf types, nullable/metadata attributes; 60 % with adversarial names: dots, backticks, spaces, non-ASCII, \
          empty, row-id names; 12 % with duplicate ids, 12 % with duplicate sibling names), then 6-14 ops among project_by_ids \
          (random id subsets incl. unknown/duplicate ids, both include_all_children), exclude / intersection / merge between \
@@ -1101,10 +1222,26 @@ impl Prop for C43 {
         let paths_a = real_paths(&a);
         l.push(a);
         let mut schemas = vec!["A".to_string()];
-        if r.chance(1, 3) {
-            let (b, _) = gen_schema(r, "B", adversarial, dup_ids, dup_names);
-            l.push(b);
-            schemas.push("B".into());
+        let mut variant = false;
+        match r.below(6) {
+            0 | 1 => {
+                let (b, _) = gen_schema(r, "B", adversarial, dup_ids, dup_names);
+                l.push(b);
+                schemas.push("B".into());
+            }
+            2 | 3 => {
+                // same names, different assigned ids (larger / smaller / permuted), some fields dropped or retyped
+                if let Some(b) = gen_variant(r, &l[0], "B") {
+                    l.push(b);
+                    schemas.push("B".into());
+                    variant = true;
+                }
+            }
+            _ => {}
+        }
+        if variant {
+            l.push(format!("isect X1 A B {}", (r.below(4) == 0) as u8));
+            l.push(format!("isect X2 B A {}", (r.below(4) == 0) as u8));
         }
         let mut projs: Vec<String> = vec![];
         let nops = r.range(6, 14);
